@@ -36,14 +36,16 @@ def encs(a):
     return [enc(x) for x in a]
 
 
-def user_kernel(path):
-    """A 5-column kernel file in the documented layout (pressure rows, one column per pore size)."""
-    widths = [0.5, 0.8, 1.2, 2.0, 3.5]
+def user_kernel(path, variant=0):
+    """A 5-column kernel file in the documented layout (pressure rows, one column per pore size).
+    variant 1: other pore sizes and other isotherms, meant to be stored under the SAME file name elsewhere."""
+    widths = [0.5, 0.8, 1.2, 2.0, 3.5] if variant == 0 else [0.6, 1.0, 1.5, 2.4, 4.0]
     pressures = [10 ** (-6 + 5.954 * i / 13) for i in range(14)]
+    os.makedirs(os.path.dirname(path), exist_ok=True)
     with open(path, "w", encoding="utf8") as f:
         f.write("," + ",".join(repr(w) for w in widths) + "\n")
         for p in pressures:
-            row = [30.0 / w * p / (p + 1e-5 * w ** 3) + 2.0 * p for w in widths]
+            row = [(30.0 if variant == 0 else 22.0) / w * p / (p + (1e-5 if variant == 0 else 3e-5) * w ** 3) + 2.0 * p for w in widths]
             f.write(repr(p) + "," + ",".join(repr(v) for v in row) + "\n")
     return path
 
@@ -82,7 +84,8 @@ def main(tier, seed):
     tmp = tlc.scratch("c18-")
     try:
         kernels = {"shipped": ("DFT-N2-77K-carbon-slit", str(KERNELS["DFT-N2-77K-carbon-slit"])),
-                   "user5": (None, user_kernel(os.path.join(tmp, "user-kernel-5.csv")))}
+                   "user5": (None, user_kernel(os.path.join(tmp, "a", "user-kernel-5.csv"))),
+                   "user5b": (None, user_kernel(os.path.join(tmp, "b", "user-kernel-5.csv"), variant=1))}
         data = {}
         for name, (arg, path) in kernels.items():
             P, W, M = read_kernel(path)
@@ -105,6 +108,22 @@ def main(tier, seed):
                 if name == "shipped" and s["kind"] != "unit" and s["cls"] == "physical" and (thorough or s["id"] % 3 == 0):
                     plan.append((name, s, "between"))
 
+        # kernel-file histories (spec/Kernel.tla Histories): two user kernels with the same file name used in every order;
+        # every fit is judged against ITS file's content like a first call
+        hist = tlc.oracle("KernelOracle", [{"k": "hist"}], timeout=300)[0]["histories"]
+        by_kernel = {}
+        for (r, name), ans in zip([(r, kn) for r in rotations for kn in knames], scen):
+            if r == rotations[0]:
+                by_kernel[name] = ans["scenarios"]
+        nhist = 0
+        for hi_, h in enumerate(hist):
+            if not thorough and (hi_ + seed) % 2 != 0:
+                continue
+            nhist += 1
+            for t_, kn in enumerate(h):
+                s = dict(by_kernel[kn][(hi_ + 3 * t_) % len(by_kernel[kn])])
+                s["rot"] = ("history", hi_, t_)
+                plan.append((kn, s, "knots"))
         import time
         t_fit = time.time()
         judge_q, meta = [], []
@@ -212,9 +231,9 @@ def main(tier, seed):
             if not ans["ok"]:
                 run.violation({"site": entry, "clause": "refusal", "pressures": cname, "observed": observed, "expected": ans["expected"]}, {})
         run.add("traces_validated_against_impl", len(judge_q) + len(ref_q))
-        run.set(scenarios_run=len(judge_q), refusal_cases=len(ref_q), worst_rss_physical=worst, exhaustive=False,
+        run.set(kernel_file_histories=nhist, scenarios_run=len(judge_q), refusal_cases=len(ref_q), worst_rss_physical=worst, exhaustive=False,
                 rule="scenario = weight vector (77 unit vectors, 30 pairs, 10 dense small-integer vectors at physical magnitude, 2 dense at 10^3-10^4 mmol/g; 5+3+2 on the "
-                     "5-column user kernel written by the harness) x (pressure grid on kernel rows, limits none/lower/upper/both, spline order 0-3) assigned by rotation "
+                     "5-column user kernels written by the harness: two files with the same name in different directories, also used in all 16 orders of length 4) x (pressure grid on kernel rows, limits none/lower/upper/both, spline order 0-3) assigned by rotation "
                      "(seed) so that all 64 combinations occur, enumerated by spec/Kernel.tla; plus the non-unit vectors on pressures between the kernel rows; "
                      + ("thorough: all, under 4 rotations" if thorough else "quick: every 2nd shipped-kernel scenario, all user-kernel ones")
                      + "; each scenario = 3 library runs (order 0, scenario order, points outside the limits changed); distinct = (kernel, scenario id, rotation, grid kind); all non-trivial")
